@@ -555,7 +555,7 @@ def check_C08(tier):
     q = tier == "quick"
     r = c.mc("Canon", "MC_C08.cfg", dict(Deviations="{}", MaxFeatures=1 if q else 2, Emit="Emit"), timeout=600,
              label="CidAgreement over all CID-reporting APIs; Canonical: an accepted artefact uses no non-canonical encoding feature")
-    for dev in ["LenientCbor", "OuterListNotLen2", "EcdsaMalleable"]:
+    for dev in ["LenientCbor", "EcdsaMalleable", "OuterListNotLen2"]:
         c.mc("Canon", "MC_C08.cfg", dict(Deviations='{"%s"}' % dev, MaxFeatures=1, Emit=""), expect_violation="Canonical",
              label="the listed finding %s violates Canonical in the model" % dev)
     c.replay("canon", r.cases, rule="(a) every CID-reporting API on real sealed delegations/invocations of Ed25519, P-256, secp256k1, "
